@@ -9,34 +9,38 @@ Variables key val : Type.
 Variable key_eqb : key -> key -> bool.
 Variable is_ref : key -> bool.
 Variables unwrap fref : key -> key.
-Hypothesis KL : key_laws key key_eqb is_ref unwrap fref.
+Variable names : key -> key -> bool.
+Hypothesis KL : key_laws key key_eqb is_ref unwrap fref names.
 
 Notation st := (st key val).
 Notation find := (find key val key_eqb).
 Notation contains := (contains key val key_eqb).
 Notation set := (set key val key_eqb).
-Notation getitem := (getitem key val key_eqb is_ref unwrap fref).
-Notation get := (get key val key_eqb is_ref unwrap fref).
-Notation step := (step key val key_eqb is_ref unwrap fref).
-Notation run := (run key val key_eqb is_ref unwrap fref).
-Notation spec_lookup := (spec_lookup key val key_eqb is_ref unwrap fref).
-Notation spec_step := (spec_step key val key_eqb is_ref unwrap fref).
-Notation spec_run := (spec_run key val key_eqb is_ref unwrap fref).
-Notation spec_final := (spec_final key val key_eqb is_ref unwrap fref).
-Notation op_ok := (op_ok key val key_eqb is_ref unwrap fref).
-Notation ops_ok := (ops_ok key val key_eqb is_ref unwrap fref).
+Notation getitem := (getitem key val key_eqb is_ref unwrap fref names).
+Notation get := (get key val key_eqb is_ref unwrap fref names).
+Notation step := (step key val key_eqb is_ref unwrap fref names).
+Notation run := (run key val key_eqb is_ref unwrap fref names).
+Notation spec_lookup := (spec_lookup key val key_eqb is_ref unwrap fref names).
+Notation spec_step := (spec_step key val key_eqb is_ref unwrap fref names).
+Notation spec_run := (spec_run key val key_eqb is_ref unwrap fref names).
+Notation spec_final := (spec_final key val key_eqb is_ref unwrap fref names).
+Notation op_ok := (op_ok key val key_eqb is_ref unwrap fref names).
+Notation ops_ok := (ops_ok key val key_eqb is_ref unwrap fref names).
+Notation scan := (scan key val is_ref names).
+Notation first_named := (first_named key val is_ref names).
+Notation named_stored := (named_stored key val is_ref names).
 Notation op := (op key val).
 
 (* ---------- the key equivalence ---------- *)
 Lemma eqb_l a b c : key_eqb a b = true -> key_eqb a c = key_eqb b c.
 Proof. intros H. destruct (key_eqb a c) eqn:E1, (key_eqb b c) eqn:E2; try reflexivity.
-  - rewrite (kl_trans _ _ _ _ _ KL b a c (kl_sym _ _ _ _ _ KL a b H) E1) in E2. discriminate.
-  - rewrite (kl_trans _ _ _ _ _ KL a b c H E2) in E1. discriminate. Qed.
+  - rewrite (kl_trans _ _ _ _ _ _ KL b a c (kl_sym _ _ _ _ _ _ KL a b H) E1) in E2. discriminate.
+  - rewrite (kl_trans _ _ _ _ _ _ KL a b c H E2) in E1. discriminate. Qed.
 
 Lemma eqb_r a b c : key_eqb a b = true -> key_eqb c a = key_eqb c b.
 Proof. intros H. destruct (key_eqb c a) eqn:E1, (key_eqb c b) eqn:E2; try reflexivity.
-  - rewrite (kl_trans _ _ _ _ _ KL c a b E1 H) in E2. discriminate.
-  - rewrite (kl_trans _ _ _ _ _ KL c b a E2 (kl_sym _ _ _ _ _ KL a b H)) in E1. discriminate. Qed.
+  - rewrite (kl_trans _ _ _ _ _ _ KL c a b E1 H) in E2. discriminate.
+  - rewrite (kl_trans _ _ _ _ _ _ KL c b a E2 (kl_sym _ _ _ _ _ _ KL a b H)) in E1. discriminate. Qed.
 
 (* ---------- the dict ---------- *)
 Lemma find_compat c a b : key_eqb a b = true -> find c a = find c b.
@@ -50,10 +54,10 @@ Proof. induction c as [|[k' v'] r IH]; cbn [Ctx.set Ctx.find].
     + rewrite (eqb_r k k' k2 E). destruct (key_eqb k2 k'); reflexivity.
     + rewrite IH. destruct (key_eqb k2 k') eqn:E2; [|reflexivity].
       destruct (key_eqb k2 k) eqn:E3; [|reflexivity].
-      rewrite (kl_trans _ _ _ _ _ KL k k2 k' (kl_sym _ _ _ _ _ KL k2 k E3) E2) in E. discriminate. Qed.
+      rewrite (kl_trans _ _ _ _ _ _ KL k k2 k' (kl_sym _ _ _ _ _ _ KL k2 k E3) E2) in E. discriminate. Qed.
 
 Lemma find_set_same c k v : find (set c k v) k = Some v.
-Proof. rewrite find_set, (kl_refl _ _ _ _ _ KL). reflexivity. Qed.
+Proof. rewrite find_set, (kl_refl _ _ _ _ _ _ KL). reflexivity. Qed.
 
 Lemma getitem_S f c k : getitem (S f) c k =
   match find c k with
@@ -64,31 +68,97 @@ Lemma getitem_S f c k : getitem (S f) c k =
                       | (Ok v, c1) => (Ok v, set c1 k v)
                       | (r, c1) => (r, c1)
                       end
-                 else getitem f c (fref k)
+                 else if contains c (fref k) then getitem f c (fref k)
+                 else match scan c k with
+                      | Some other => getitem f c other
+                      | None => (RaiseKey, c)
+                      end
   end.
 Proof. reflexivity. Qed.
 
 Lemma getitem_hit fuel c k v : find c k = Some v -> getitem fuel c k = (Ok v, c).
 Proof. intros H. destruct fuel; cbn [Ctx.getitem]; rewrite H; reflexivity. Qed.
 
+(* ---------- the scan over the stored keys ---------- *)
+Definition isrefp (p : key * val) : bool := is_ref (fst p).
+Definition refs_of (c : st) : st := filter isrefp c.
+
+Lemma first_named_refs c k : first_named c k = first_named (refs_of c) k.
+Proof. induction c as [|[r v] rest IH]; cbn [Ctx.first_named refs_of filter]; [reflexivity|].
+  unfold isrefp at 1. cbn [fst]. destruct (is_ref r) eqn:Er; cbn [andb Ctx.first_named].
+  - rewrite Er. cbn [andb]. destruct (names r k); [reflexivity|exact IH].
+  - exact IH. Qed.
+
+Lemma scan_some c k o : scan c k = Some o -> is_ref o && names o k = true.
+Proof. induction c as [|[r v] rest IH]; cbn [Ctx.scan]; intros Es; [discriminate|].
+  destruct (is_ref r && names r k) eqn:E; [injection Es as <-; exact E|exact (IH Es)]. Qed.
+
+Lemma first_named_in S k v : first_named S k = Some v ->
+  exists r, In (r, v) S /\ is_ref r && names r k = true.
+Proof. induction S as [|[r w] rest IH]; cbn [Ctx.first_named]; intros H; [discriminate|].
+  destruct (is_ref r && names r k) eqn:E.
+  - injection H as <-. exists r. split; [left; reflexivity|exact E].
+  - destruct (IH H) as (r2 & Hin & Hp). exists r2. split; [right; exact Hin|exact Hp]. Qed.
+
+Lemma find_in S k v : In (k, v) S -> exists w, find S k = Some w.
+Proof. induction S as [|[k' v'] rest IH]; intros Hin; [destruct Hin|]. cbn [Ctx.find].
+  destruct (key_eqb k k') eqn:E; [exists v'; reflexivity|].
+  destruct Hin as [Hin|Hin]; [|exact (IH Hin)].
+  injection Hin as -> ->. rewrite (kl_refl _ _ _ _ _ _ KL) in E. discriminate. Qed.
+
+(* the key the loop stops at is stored, and subscribing it (a plain dict lookup: the first entry
+   with an equal key) gives the value of the first stored reference naming k *)
+Lemma scan_find c k :
+  match scan c k with
+  | Some o => exists v, find c o = Some v /\ first_named c k = Some v
+  | None => first_named c k = None
+  end.
+Proof. induction c as [|[r v] rest IH]; cbn [Ctx.scan Ctx.first_named]; [reflexivity|].
+  destruct (is_ref r && names r k) eqn:Ep.
+  - exists v. cbn [Ctx.find]. rewrite (kl_refl _ _ _ _ _ _ KL). split; reflexivity.
+  - destruct (scan rest k) as [o|] eqn:Es; [|exact IH].
+    destruct IH as (w & Hf & Hn). exists w. split; [|exact Hn].
+    cbn [Ctx.find]. destruct (key_eqb o r) eqn:Eo; [|exact Hf].
+    (* an equal key earlier in the dict would be a reference naming k as well *)
+    exfalso.
+    pose proof (scan_some rest k o Es) as Ho.
+    rewrite (kl_ref_compat _ _ _ _ _ _ KL o r Eo), (kl_names_compat _ _ _ _ _ _ KL o r k Eo), Ep in Ho.
+    discriminate. Qed.
+
+Lemma refs_of_set_nonref c k v : is_ref k = false -> refs_of (set c k v) = refs_of c.
+Proof. intros Hk. induction c as [|[k' v'] r IH]; cbn [Ctx.set refs_of filter].
+  - unfold isrefp. cbn [fst]. rewrite Hk. reflexivity.
+  - destruct (key_eqb k k') eqn:E; cbn [filter].
+    + unfold isrefp. cbn [fst]. rewrite <- (kl_ref_compat _ _ _ _ _ _ KL k k' E), Hk. reflexivity.
+    + fold (refs_of (set r k v)). fold (refs_of r). rewrite IH. reflexivity. Qed.
+
+Lemma set_fresh c k v : find c k = None -> set c k v = c ++ [(k, v)].
+Proof. induction c as [|[k' v'] r IH]; cbn [Ctx.set Ctx.find app]; intros H; [reflexivity|].
+  destruct (key_eqb k k'); [discriminate|]. rewrite (IH H). reflexivity. Qed.
+
+Lemma refs_of_set_fresh c k v : find c k = None -> refs_of (set c k v) = refs_of c ++ refs_of [(k, v)].
+Proof. intros H. rewrite (set_fresh c k v H). unfold refs_of. apply filter_app. Qed.
+
 (* ---------- the refinement relation ----------
    every inserted pair is in the concrete dict; every other concrete entry is a memo entry:
    a non-reference key, different from its unwrapped form, carrying the value stored
-   under its unwrapped form. *)
+   under its unwrapped form; the stored references are the inserted ones, in insertion order
+   (what the loop over the dict sees). *)
 Definition R (c S : st) : Prop :=
   (forall k v, find S k = Some v -> find c k = Some v) /\
   (forall k v, find c k = Some v -> find S k = None ->
-     is_ref k = false /\ key_eqb (unwrap k) k = false /\ find S (unwrap k) = Some v).
+     is_ref k = false /\ key_eqb (unwrap k) k = false /\ find S (unwrap k) = Some v) /\
+  refs_of c = refs_of S.
 
 Lemma R_nil : R [] [].
-Proof. split; intros k v H; cbn in H; discriminate. Qed.
+Proof. split; [|split]; [intros k v H; cbn in H; discriminate|intros k v H; cbn in H; discriminate|reflexivity]. Qed.
 
 Lemma R_none c S k : R c S -> find c k = None -> find S k = None.
-Proof. intros [Ha _] H. destruct (find S k) as [v|] eqn:E; [|reflexivity].
+Proof. intros (Ha & _ & _) H. destruct (find S k) as [v|] eqn:E; [|reflexivity].
   rewrite (Ha k v E) in H. discriminate. Qed.
 
 Lemma R_hit c S k v : R c S -> find c k = Some v -> spec_lookup S k = Some v.
-Proof. intros [Ha Hb] H. unfold Ctx.spec_lookup. destruct (find S k) as [w|] eqn:E; cbn [orelse].
+Proof. intros (Ha & Hb & _) H. unfold Ctx.spec_lookup. destruct (find S k) as [w|] eqn:E; cbn [orelse].
   - rewrite (Ha k w E) in H. exact H.
   - destruct (Hb k v H E) as (Hr & _ & Hu). rewrite Hr, Hu. reflexivity. Qed.
 
@@ -96,70 +166,87 @@ Proof. intros [Ha Hb] H. unfold Ctx.spec_lookup. destruct (find S k) as [w|] eqn
    is an inserted one *)
 Lemma R_plain c S k v : R c S -> find c k = Some v ->
   is_ref k = true \/ key_eqb (unwrap k) k = true -> find S k = Some v.
-Proof. intros [Ha Hb] H Hk. destruct (find S k) as [w|] eqn:E.
+Proof. intros (Ha & Hb & _) H Hk. destruct (find S k) as [w|] eqn:E.
   - rewrite (Ha k w E) in H. exact H.
   - destruct (Hb k v H E) as (Hr & Hne & _). destruct Hk as [Hk|Hk]; congruence. Qed.
+
+Lemma R_first_named c S k : R c S -> first_named c k = first_named S k.
+Proof. intros (_ & _ & Hc). rewrite (first_named_refs c k), (first_named_refs S k), Hc. reflexivity. Qed.
 
 Definition res_of_opt (o : option val) : res val :=
   match o with Some v => Ok v | None => RaiseKey end.
 
-Lemma getitem_refines c S fuel k : R c S -> 2 <= fuel ->
+(* one __missing__ frame suffices: every nested subscription is a direct hit *)
+Lemma getitem_refines c S fuel k : R c S -> 1 <= fuel ->
   fst (getitem fuel c k) = res_of_opt (spec_lookup S k) /\ R (snd (getitem fuel c k)) S.
 Proof.
-  intros HR Hf. destruct fuel as [|[|f]]; try lia. clear Hf.
+  intros HR Hf. destruct fuel as [|f]; try lia. clear Hf.
   rewrite getitem_S. destruct (find c k) as [v|] eqn:Ek.
   - cbn [fst snd]. rewrite (R_hit c S k v HR Ek). split; [reflexivity|exact HR].
   - pose proof (R_none c S k HR Ek) as ESk.
     destruct (is_ref k) eqn:Er.
     + cbn [fst snd]. split; [|exact HR]. unfold Ctx.spec_lookup. rewrite ESk, Er. reflexivity.
     + unfold Ctx.contains. destruct (find c (unwrap k)) as [v|] eqn:Eu; cbn [is_some].
-      * rewrite (getitem_hit (Datatypes.S f) c (unwrap k) v Eu). cbn [fst snd].
+      * rewrite (getitem_hit f c (unwrap k) v Eu). cbn [fst snd].
         assert (ESu : find S (unwrap k) = Some v).
-        { apply (R_plain c S (unwrap k) v HR Eu). right. exact (kl_unwrap_idem _ _ _ _ _ KL k Er). }
+        { apply (R_plain c S (unwrap k) v HR Eu). right. exact (kl_unwrap_idem _ _ _ _ _ _ KL k Er). }
         split.
         { unfold Ctx.spec_lookup. rewrite ESk, Er, ESu. reflexivity. }
-        destruct HR as [Ha Hb]. split.
+        destruct HR as (Ha & Hb & Hc). split; [|split].
         { intros k2 w H2. rewrite find_set. destruct (key_eqb k2 k) eqn:E2.
           - rewrite (find_compat S k2 k E2), ESk in H2. discriminate.
           - exact (Ha k2 w H2). }
         { intros k2 w H2 HS2. rewrite find_set in H2. destruct (key_eqb k2 k) eqn:E2.
           - injection H2 as <-.
-            pose proof (kl_unwrap_compat _ _ _ _ _ KL k2 k E2) as Eu2.
-            split; [rewrite (kl_ref_compat _ _ _ _ _ KL k2 k E2); exact Er|]. split.
+            pose proof (kl_unwrap_compat _ _ _ _ _ _ KL k2 k E2) as Eu2.
+            split; [rewrite (kl_ref_compat _ _ _ _ _ _ KL k2 k E2); exact Er|]. split.
             + destruct (key_eqb (unwrap k2) k2) eqn:E3; [|reflexivity].
               assert (E4 : key_eqb (unwrap k) k = true).
-              { apply (kl_trans _ _ _ _ _ KL _ (unwrap k2)); [apply (kl_sym _ _ _ _ _ KL); exact Eu2|].
-                apply (kl_trans _ _ _ _ _ KL _ k2); assumption. }
+              { apply (kl_trans _ _ _ _ _ _ KL _ (unwrap k2)); [apply (kl_sym _ _ _ _ _ _ KL); exact Eu2|].
+                apply (kl_trans _ _ _ _ _ _ KL _ k2); assumption. }
               rewrite (find_compat c (unwrap k) k E4), Ek in Eu. discriminate.
             + rewrite (find_compat S (unwrap k2) (unwrap k) Eu2). exact ESu.
           - exact (Hb k2 w H2 HS2). }
+        { rewrite (refs_of_set_nonref c k v Er). exact Hc. }
       * pose proof (R_none c S (unwrap k) HR Eu) as ESu.
-        pose proof (kl_fref_ref _ _ _ _ _ KL k Er) as Efr.
-        rewrite getitem_S. destruct (find c (fref k)) as [v|] eqn:Ef.
-        -- cbn [fst snd]. split; [|exact HR].
+        pose proof (kl_fref_ref _ _ _ _ _ _ KL k Er) as Efr.
+        destruct (find c (fref k)) as [v|] eqn:Ef; cbn [is_some].
+        -- rewrite (getitem_hit f c (fref k) v Ef). cbn [fst snd]. split; [|exact HR].
            unfold Ctx.spec_lookup. rewrite ESk, Er, ESu.
            rewrite (R_plain c S (fref k) v HR Ef (or_introl Efr)). reflexivity.
-        -- rewrite Efr. cbn [fst snd]. split; [|exact HR].
-           unfold Ctx.spec_lookup. rewrite ESk, Er, ESu, (R_none c S (fref k) HR Ef). reflexivity.
+        -- pose proof (R_none c S (fref k) HR Ef) as ESf.
+           pose proof (scan_find c k) as Hs. rewrite (R_first_named c S k HR) in Hs.
+           destruct (scan c k) as [o|].
+           ++ destruct Hs as (w & Hw & Hn). rewrite (getitem_hit f c o w Hw). cbn [fst snd].
+              split; [|exact HR]. unfold Ctx.spec_lookup. rewrite ESk, Er, ESu, ESf, Hn. reflexivity.
+           ++ cbn [fst snd]. split; [|exact HR].
+              unfold Ctx.spec_lookup. rewrite ESk, Er, ESu, ESf, Hs. reflexivity.
 Qed.
 
 Lemma R_set c S k v : R c S -> contains S k = false -> R (set c k v) (set S k v).
-Proof. intros [Ha Hb] Hk. unfold Ctx.contains in Hk.
-  destruct (find S k) as [x|] eqn:ESk; [discriminate|]. split.
+Proof. intros (Ha & Hb & Hc) Hk. unfold Ctx.contains in Hk.
+  destruct (find S k) as [x|] eqn:ESk; [discriminate|]. split; [|split].
   - intros k2 w. rewrite !find_set. destruct (key_eqb k2 k); [trivial|apply Ha].
   - intros k2 w. rewrite !find_set. destruct (key_eqb k2 k) eqn:E2; [discriminate|].
     intros H2 HS2. destruct (Hb k2 w H2 HS2) as (Hr & Hne & Hu). split; [exact Hr|]. split; [exact Hne|].
     destruct (key_eqb (unwrap k2) k) eqn:E3; [|exact Hu].
-    rewrite (find_compat S (unwrap k2) k E3), ESk in Hu. discriminate. Qed.
+    rewrite (find_compat S (unwrap k2) k E3), ESk in Hu. discriminate.
+  - destruct (is_ref k) eqn:Er.
+    + (* a reference key is never a memo key: it is fresh in the concrete dict too, appended to both *)
+      assert (Eck : find c k = None).
+      { destruct (find c k) as [w|] eqn:E; [|reflexivity].
+        destruct (Hb k w E ESk) as (Hr & _). congruence. }
+      rewrite (refs_of_set_fresh c k v Eck), (refs_of_set_fresh S k v ESk), Hc. reflexivity.
+    + rewrite !refs_of_set_nonref by exact Er. exact Hc. Qed.
 
 Lemma contains_refines c S k : R c S ->
   contains S k || negb (is_some (spec_lookup S k)) = true -> contains c k = contains S k.
 Proof. intros HR H. unfold Ctx.contains in *. destruct (find S k) as [v|] eqn:ES; cbn [is_some orb] in *.
-  - destruct HR as [Ha _]. rewrite (Ha k v ES). reflexivity.
+  - destruct HR as (Ha & _). rewrite (Ha k v ES). reflexivity.
   - destruct (find c k) as [v|] eqn:Ec; [|reflexivity].
     rewrite (R_hit c S k v HR Ec) in H. discriminate. Qed.
 
-Lemma step_refines c S fuel o : R c S -> 2 <= fuel -> op_ok S o = true ->
+Lemma step_refines c S fuel o : R c S -> 1 <= fuel -> op_ok S o = true ->
   fst (step fuel c o) = fst (spec_step S o) /\ R (snd (step fuel c o)) (snd (spec_step S o)).
 Proof. intros HR Hf Hok. destruct o as [k v|k|k d|k]; cbn [Ctx.step Ctx.spec_step Ctx.op_ok] in *.
   - cbn [fst snd]. split; [reflexivity|]. apply R_set; [exact HR|].
@@ -172,7 +259,7 @@ Proof. intros HR Hf Hok. destruct o as [k v|k|k d|k]; cbn [Ctx.step Ctx.spec_ste
     destruct (spec_lookup S k); cbn [res_of_opt fst snd]; (split; [reflexivity|exact H2]).
   - cbn [fst snd]. split; [|exact HR]. rewrite (contains_refines c S k HR Hok). reflexivity. Qed.
 
-Lemma run_refines fuel ops : 2 <= fuel -> forall c S, R c S -> ops_ok S ops = true ->
+Lemma run_refines fuel ops : 1 <= fuel -> forall c S, R c S -> ops_ok S ops = true ->
   run fuel c ops = spec_run S ops.
 Proof. intros Hf. induction ops as [|o r IH]; intros c S HR Hok; cbn [Ctx.run Ctx.spec_run]; [reflexivity|].
   cbn [Ctx.ops_ok] in Hok. apply andb_prop in Hok as [Ho Hr].
@@ -180,7 +267,7 @@ Proof. intros Hf. induction ops as [|o r IH]; intros c S HR Hok; cbn [Ctx.run Ct
   destruct (step fuel c o) as [x c']; destruct (spec_step S o) as [y S']; cbn [fst snd] in *.
   subst y. f_equal. apply IH; assumption. Qed.
 
-Theorem refines fuel ops : 2 <= fuel -> ops_ok [] ops = true -> run fuel [] ops = spec_run [] ops.
+Theorem refines fuel ops : 1 <= fuel -> ops_ok [] ops = true -> run fuel [] ops = spec_run [] ops.
 Proof. intros Hf Hok. exact (run_refines fuel ops Hf [] [] R_nil Hok). Qed.
 
 (* ---------- consequences ---------- *)
@@ -212,7 +299,7 @@ Proof. induction ops as [|o r IH]; intros S k v Hok HS; cbn [Ctx.spec_final]; [e
   cbn [Ctx.op_ok] in Ho. unfold Ctx.contains in Ho.
   rewrite <- (find_compat S k k' E), HS in Ho. discriminate. Qed.
 
-Theorem keyerror fuel ops k d : 2 <= fuel -> ops_ok [] ops = true ->
+Theorem keyerror fuel ops k d : 1 <= fuel -> ops_ok [] ops = true ->
   spec_lookup (spec_final [] ops) k = None ->
   run fuel [] (ops ++ [OItem k; OGet k d; OIn k]) = spec_run [] ops ++ [OKeyError; OVal d; OBool false].
 Proof. intros Hf Hok Hn.
@@ -223,7 +310,7 @@ Proof. intros Hf Hok Hn.
   - rewrite spec_run_app. f_equal. cbn [Ctx.spec_run Ctx.spec_step]. rewrite Hn, Hc. reflexivity.
   - rewrite ops_ok_app, Hok. cbn [Ctx.ops_ok Ctx.op_ok Ctx.spec_step snd andb]. rewrite Hn, Hc. reflexivity. Qed.
 
-Theorem stored_found fuel ops1 k v ops2 d : 2 <= fuel ->
+Theorem stored_found fuel ops1 k v ops2 d : 1 <= fuel ->
   ops_ok [] (ops1 ++ OSet k v :: ops2) = true ->
   run fuel [] ((ops1 ++ OSet k v :: ops2) ++ [OItem k; OGet k d; OIn k])
   = spec_run [] (ops1 ++ OSet k v :: ops2) ++ [OVal v; OVal v; OBool true].
@@ -244,7 +331,7 @@ Proof. intros Hf Hok.
   - rewrite ops_ok_app, Hok. cbn [Ctx.ops_ok Ctx.op_ok Ctx.spec_step snd andb]. rewrite HC. reflexivity. Qed.
 
 (* inserting a lookup anywhere in a history changes no other output *)
-Theorem lookup_pure fuel ops1 l ops2 : 2 <= fuel -> is_lookup key val l = true ->
+Theorem lookup_pure fuel ops1 l ops2 : 1 <= fuel -> is_lookup key val l = true ->
   ops_ok [] (ops1 ++ ops2) = true ->
   exists x, run fuel [] (ops1 ++ l :: ops2)
             = firstn (length ops1) (run fuel [] (ops1 ++ ops2)) ++ x ::
@@ -261,11 +348,56 @@ Proof. intros Hf Hl Hok. destruct (lookup_keeps (spec_final [] ops1) l Hl) as [H
   - rewrite ops_ok_app in *. apply andb_prop in Hok as [H1 H2]. rewrite H1. cbn [Ctx.ops_ok andb].
     rewrite Ho, Hs. exact H2. Qed.
 
+(* ---------- the order-free reading: "under a forward reference naming it" ---------- *)
+Lemma find_some_in S a v : find S a = Some v -> exists k', In (k', v) S /\ key_eqb a k' = true.
+Proof. induction S as [|[k' v'] r IH]; cbn [Ctx.find]; intros H; [discriminate|].
+  destruct (key_eqb a k') eqn:E.
+  - injection H as <-. exists k'. split; [left; reflexivity|exact E].
+  - destruct (IH H) as (k2 & Hin & He). exists k2. split; [right; exact Hin|exact He]. Qed.
+
+Lemma first_named_some S k : is_some (first_named S k) = named_stored S k.
+Proof. unfold Ctx.named_stored. induction S as [|[r v] rest IH]; cbn [Ctx.first_named existsb fst]; [reflexivity|].
+  destruct (is_ref r && names r k); [reflexivity|exact IH]. Qed.
+
+(* For a key whose canonical reference names it (fref_names: true of every named type, decided on
+   the live tables), a lookup finds something exactly when the key is stored under itself, or -- not
+   being a reference -- under its unwrapped form or under ANY stored forward reference naming it. *)
+Theorem found_iff S k : is_ref k = false -> fref_names key fref names k ->
+  is_some (spec_lookup S k) = is_some (find S k) || is_some (find S (unwrap k)) || named_stored S k.
+Proof. intros Er Hn. unfold Ctx.spec_lookup. rewrite Er.
+  destruct (find S k) as [v|]; cbn [orelse is_some orb]; [reflexivity|].
+  destruct (find S (unwrap k)) as [v|]; cbn [orelse is_some orb]; [reflexivity|].
+  destruct (find S (fref k)) as [v|] eqn:Ef; cbn [orelse is_some]; [|apply first_named_some].
+  symmetry. unfold Ctx.named_stored. apply existsb_exists.
+  destruct (find_some_in S (fref k) v Ef) as (k' & Hin & He). exists (k', v). split; [exact Hin|]. cbn [fst].
+  rewrite <- (kl_ref_compat _ _ _ _ _ _ KL (fref k) k' He), (kl_fref_ref _ _ _ _ _ _ KL k Er).
+  rewrite <- (kl_names_compat _ _ _ _ _ _ KL (fref k) k' k He). exact Hn. Qed.
+
+(* which naming reference: the canonical one if stored, else the first inserted *)
+Theorem which_ref S k : is_ref k = false -> find S k = None -> find S (unwrap k) = None ->
+  spec_lookup S k = orelse (find S (fref k)) (first_named S k).
+Proof. intros Er H1 H2. unfold Ctx.spec_lookup. rewrite Er, H1, H2. reflexivity. Qed.
+
+(* insertion order decides: with two naming references r1 r2 (neither the canonical one) stored in
+   this order and nothing else that a lookup of k could find, the lookup shows r1's value *)
+Theorem first_stored_wins fuel k r1 r2 v1 v2 : 1 <= fuel ->
+  is_ref k = false -> is_ref r1 = true -> is_ref r2 = true -> names r1 k = true ->
+  key_eqb r2 r1 = false -> key_eqb k r1 = false -> key_eqb k r2 = false ->
+  key_eqb (unwrap k) r1 = false -> key_eqb (unwrap k) r2 = false ->
+  key_eqb (fref k) r1 = false -> key_eqb (fref k) r2 = false ->
+  run fuel [] [OSet r1 v1; OSet r2 v2; OItem k] = [OUnit; OUnit; OVal v1].
+Proof. intros Hf Ek E1 E2 Hn E21 Ek1 Ek2 Eu1 Eu2 Ef1 Ef2.
+  rewrite refines; [|exact Hf|].
+  - cbn [Ctx.spec_run Ctx.spec_step Ctx.set]. rewrite E21. unfold Ctx.spec_lookup.
+    cbn [Ctx.find Ctx.first_named]. rewrite Ek, Ek1, Ek2, Eu1, Eu2, Ef1, Ef2, E1, Hn. reflexivity.
+  - cbn [Ctx.ops_ok Ctx.op_ok Ctx.spec_step snd Ctx.set]. unfold Ctx.contains. cbn [Ctx.find].
+    rewrite E21. reflexivity. Qed.
+
 End CtxProofs.
 
 (* ---------- the table-driven family satisfies the laws when the check says so ---------- *)
 Lemma tabs_ok_sound (T : tabs) : tabs_ok T = true ->
-  key_laws nat Nat.eqb (tab_isref T) (tab_unwrap T) (tab_fref T).
+  key_laws nat Nat.eqb (tab_isref T) (tab_unwrap T) (tab_fref T) (tab_names T).
 Proof. intros H. unfold tabs_ok in H. rewrite forallb_forall in H.
   assert (HA : forall a, tab_isref T a = false ->
      Nat.eqb (tab_unwrap T (tab_unwrap T a)) (tab_unwrap T a) = true /\ tab_isref T (tab_fref T a) = true).
@@ -281,18 +413,37 @@ Proof. intros H. unfold tabs_ok in H. rewrite forallb_forall in H.
   - intros a b E. apply Nat.eqb_eq in E. subst b. reflexivity.
   - intros a b E. apply Nat.eqb_eq in E. subst b. apply Nat.eqb_refl.
   - intros a Ha. exact (proj1 (HA a Ha)).
-  - intros a Ha. exact (proj2 (HA a Ha)). Qed.
+  - intros a Ha. exact (proj2 (HA a Ha)).
+  - intros a b k E. apply Nat.eqb_eq in E. subst b. reflexivity. Qed.
 
 (* a catalogued wrapper finds the value stored under its class in a FRESH context
    (nothing looked up, hence nothing memoised, before) *)
 Lemma reach_found (T : tabs) (cat : list (nat * nat)) :
   tabs_ok T = true -> tabs_reach T cat = true ->
-  forall k b v fuel, In (k, b) cat -> 2 <= fuel ->
+  forall k b v fuel, In (k, b) cat -> 1 <= fuel ->
     t_run T fuel [OSet b v; OItem k] = [OUnit; OVal v].
 Proof. intros Hok Hr k b v fuel Hin Hf. unfold t_run.
-  rewrite (refines nat nat Nat.eqb _ _ _ (tabs_ok_sound T Hok) fuel _ Hf); [|reflexivity].
+  rewrite (refines nat nat Nat.eqb _ _ _ _ (tabs_ok_sound T Hok) fuel _ Hf); [|reflexivity].
   unfold tabs_reach in Hr. rewrite forallb_forall in Hr. specialize (Hr (k, b) Hin).
   cbn [fst snd] in Hr. apply andb_prop in Hr as [H1 H2]. apply Nat.eqb_eq in H2.
   apply negb_true_iff in H1.
   cbn [Ctx.spec_run Ctx.spec_step Ctx.set]. unfold Ctx.spec_lookup. cbn [Ctx.find].
   rewrite H1, H2, Nat.eqb_refl. destruct (Nat.eqb k b); reflexivity. Qed.
+
+(* a catalogued foreign reference (written in a module that merely imports the name) finds its type:
+   the value stored under it alone, in a fresh context, is what a lookup of the type shows *)
+Lemma foreign_found (T : tabs) (cat : list (nat * nat)) :
+  tabs_ok T = true -> tabs_foreign T cat = true ->
+  forall r k v fuel, In (r, k) cat -> 1 <= fuel ->
+    t_run T fuel [OSet r v; OItem k] = [OUnit; OVal v].
+Proof. intros Hok Hr r k v fuel Hin Hf. unfold t_run.
+  rewrite (refines nat nat Nat.eqb _ _ _ _ (tabs_ok_sound T Hok) fuel _ Hf); [|reflexivity].
+  unfold tabs_foreign in Hr. rewrite forallb_forall in Hr. specialize (Hr (r, k) Hin).
+  cbn [fst snd] in Hr. apply andb_prop in Hr as [Hr H5]. apply andb_prop in Hr as [Hr H4].
+  apply andb_prop in Hr as [Hr H3]. apply andb_prop in Hr as [H1 H2].
+  apply negb_true_iff in H2, H3, H4.
+  assert (Ekr : Nat.eqb k r = false).
+  { destruct (Nat.eqb k r) eqn:E; [|reflexivity]. apply Nat.eqb_eq in E. subst k. congruence. }
+  rewrite Nat.eqb_sym in H3, H4.
+  cbn [Ctx.spec_run Ctx.spec_step Ctx.set]. unfold Ctx.spec_lookup. cbn [Ctx.find Ctx.first_named].
+  rewrite Ekr, H2, H4, H3, H1, H5. reflexivity. Qed.
